@@ -283,6 +283,38 @@ def run(ctx):
         s = rng.choice([None, None, 0, 1])
         n = rng.choice([None, None, 1, la])
         run_case(ctx, W, np, a, e, na, na, s, s, n, np.uint8, reqs)
+    # ---- signed state dtype: negative samples are not digital states either (every value in -128..-1, on either side or both, inside or
+    # outside the compared window) - judged by the oracle alone (the line protocol carries unsigned states)
+    for v in list(range(-9, 0)) + [-128, -127, -64, -10]:
+        for side in ("actual", "expected", "both"):
+            for other in (0, 1, 2, 4, 7):
+                for pos in (0, 2):
+                    a = [[0, 1], [1, 0], [other, 3]]
+                    e = [[0, 1], [1, 0], [other, 3]]
+                    if side in ("actual", "both"): a[pos][0] = v
+                    if side in ("expected", "both"): e[pos][0] = v if side == "both" else v
+                    for (s_, n_) in ((None, None), (0, 2), (2, 1), (1, 1)):
+                        wa, we = DigitalWaveform.from_lines(np.array(a, np.int8)), DigitalWaveform.from_lines(np.array(e, np.int8 if side != "actual" else np.uint8))
+                        kw = {} if s_ is None else {"start_sample": s_, "expected_start_sample": s_, "sample_count": n_}
+                        o = outcome(lambda: wa.test(we, **kw))
+                        want = expected(a, e, 2, 2, s_, s_, n_)
+                        got = ("err", o[1]) if o[0] != "ok" else ("ok", [(f.sample_index, f.expected_sample_index, f.signal_index, int(f.actual_state), int(f.expected_state)) for f in o[1].failures])
+                        ctx.case(("negative-state", v, side, other, pos, s_, n_))
+                        if got != want:
+                            ctx.violation(what="test with a negative sample (signed state dtype)", actual=a, expected=e, window=(s_, n_), observed=str(got)[:200], required=str(want)[:200])
+                            break
+                    else:
+                        continue
+                    break
+                else:
+                    continue
+                break
+            else:
+                continue
+            break
+        else:
+            continue
+        break
     res = ctx.model([q for q, _ in reqs])
     if res is not None:
         for (q, want), got in zip(reqs, res):
